@@ -267,6 +267,32 @@ func (fr *frame) dynamicCall(x *ssa.Call, v *Term, args []*Term, st *state) {
 	g := fr.g
 	g.usedAssumptions["dynamic calls (function values not statically known) return arbitrary well-typed results and do not modify modelled memory"] = true
 	g.safety(fr, st, "nil-func-call", fr.srcAnchor(x.Pos(), isCall, "call"), x.Pos(), "(not (= "+v.S+" 0))")
+	if !fr.isOperatorSig(x.Common().Signature()) {
+		// not an operator: a function value of the package's own plumbing (leaf parsers, options, optimisers):
+		// it may do anything to the heap -> havoc every heap component known to this run
+		g.usedAssumptions["calls through non-operator function values (leaf parsers, options) are treated as havoc of all modelled heap components"] = true
+		all := map[string]bool{}
+		if g.con != nil && len(g.con.DynCallees) > 0 {
+			// the contract names the possible callees: havoc the union of their inferred frames
+			g.usedAssumptions["calls through non-operator function values in "+g.key+" target one of: "+strings.Join(g.con.DynCallees, ", ")] = true
+			for _, k := range g.con.DynCallees {
+				if cf := g.P.Lookup(k); cf != nil {
+					for b := range g.Eng.modset(cf) {
+						all[b] = true
+					}
+				} else {
+					g.rejectf("dyncallees: no such function %s", k)
+				}
+			}
+		} else {
+			for k, bi := range g.Eng.baseInfos {
+				if !bi.local && !strings.HasPrefix(k, "dyn.") {
+					all[k] = true
+				}
+			}
+		}
+		fr.havocMods(all, st)
+	}
 	// ghost call log (callee id per call); results are uninterpreted functions of (callee, call number):
 	// arbitrary per call, yet nameable in contracts as (dynres_<i>_<sort> fn k)
 	cnt := g.base(st, "dyn.n", "Int", 0, false)
@@ -518,4 +544,11 @@ func (fr *frame) noteLastErr(vals []*Term, st *state) {
 	g.base(st, "last.err", "Err", 0, false)
 	nv := g.newVersion(st, "last.err")
 	g.assert("(= " + nv + " " + last.S + ")")
+}
+
+func (fr *frame) isOperatorSig(sig *types.Signature) bool {
+	if opT := fr.g.P.SSA.Type("Operator"); opT != nil {
+		return types.Identical(sig, opT.Type().Underlying())
+	}
+	return false
 }
